@@ -169,6 +169,10 @@ func execC09(e *Env, pp any) {
 			}
 			continue
 		}
+		if r.COverrun {
+			e.Violate(prop, "recv-succeeds-for-ever", site, "call %d: RecvMsg kept returning success (%d messages; the handler sends %d) after the transport failed at event %d: the call never learns that the connection is gone", id, len(r.CGot), c.HSendN, failEv)
+			continue
+		}
 		err, ok := callerErr(r)
 		if c.Kind != KUnary && r.NewStreamErr != nil {
 			err, ok = r.NewStreamErr, true
@@ -542,6 +546,20 @@ func genC11(g *rand.Rand, tier string) any {
 		}
 		// wait until the handler has queued its messages, then cancel and leave
 		b = append(b, Op{K: 'y'}, Op{K: 'y'}, Op{K: 'y'}, Op{K: 'x'})
+		if a.Kind == KBidi && m > 0 && g.IntN(3) == 0 {
+			// both directions abandoned at once: the handler is still sending
+			// while input it has not read yet piles up behind it (it reads only
+			// after its burst), and the caller, with responses unread, gives up
+			n := 2 + g.IntN(2)
+			a.CSendN = n
+			ap = []Op{{K: 's', N: n}}
+			a.HProg = []Op{{K: 's', N: m}, {K: 'R'}}
+			a.BothWays = true
+			if g.IntN(2) == 0 {
+				// the wait cycle this shape is after needs writes that block until the peer reads
+				p.Links[0].Cap, p.Links[1].Cap = 0, 0
+			}
+		}
 		a.CProg = []Op{{K: 'f', A: ap, B: b}}
 		if g.IntN(4) == 0 {
 			// the caller has gone before the open even returns: its context is already
@@ -633,6 +651,9 @@ func execC11(e *Env, pp any) {
 	if p.Mode == 1 && p.Abandon.PreDone != 0 && ar.HInvoked > 0 {
 		e.Note("abandon.ctx-done-during-open")
 	}
+	if p.Mode == 1 && p.Abandon.BothWays && ar.CancelEv != 0 {
+		e.Note("abandon.both-directions")
+	}
 	if p.Mode == 1 && ar.CancelEv != 0 {
 		e.Note("abandon.caller-cancel")
 		if p.Abandon.HSendN-len(ar.CGot) >= 3 {
@@ -710,7 +731,7 @@ type C14Params struct {
 	N        int       `json:"n"`        // RPCs in the history
 	Inflight int       `json:"inflight"` // concurrently
 	GenSeed  uint64    `json:"genseed"`
-	Outcomes []int     `json:"outcomes"` // weights: ok, error, cancel, deadline, early-return (server reset), failed open, context finished before the call, timeout already expired on arrival
+	Outcomes []int     `json:"outcomes"` // weights: ok, error, cancel, deadline, early-return (server reset), failed open, context finished before the call, timeout already expired on arrival, a message write that fails once
 	Side     SideOpts  `json:"side"`     // interceptors / stats handlers (family c20.outcomes)
 }
 
@@ -724,7 +745,7 @@ func genC14(g *rand.Rand, tier string) any {
 	}
 	p.Inflight = 1 + g.IntN(32)
 	p.GenSeed = g.Uint64()
-	p.Outcomes = []int{1 + g.IntN(4), g.IntN(3), g.IntN(4), g.IntN(3), g.IntN(3), g.IntN(3), g.IntN(3), g.IntN(2)}
+	p.Outcomes = []int{1 + g.IntN(4), g.IntN(3), g.IntN(4), g.IntN(3), g.IntN(3), g.IntN(3), g.IntN(3), g.IntN(2), g.IntN(3)}
 	return p
 }
 
@@ -745,7 +766,12 @@ func execC14(e *Env, pp any) {
 	cout := net.CEnds[0].Out
 	// failed open: the transport write of chosen open envelopes fails once
 	failOpen := map[int]bool{}
+	failBody := map[int]bool{}   // calls whose next message write fails once (the connection stays usable)
+	wireCall := map[uint64]int{} // wire id -> call, learnt from the open envelope
 	cout.WriteFault = func(n int, r *Rpc) error {
+		if c := callOfEnvelope(r); c != 0 {
+			wireCall[r.GetId()] = c
+		}
 		if r.GetBody() == nil && r.GetTrailer() == nil && r.GetReset_() == nil {
 			if c := callOfEnvelope(r); c != 0 && failOpen[c] {
 				delete(failOpen, c)
@@ -753,10 +779,17 @@ func execC14(e *Env, pp any) {
 				return ErrInjected
 			}
 		}
+		if r.GetBody() != nil && r.GetReset_() == nil {
+			if c := wireCall[r.GetId()]; c != 0 && failBody[c] {
+				delete(failBody, c)
+				e.Note("fault.body.writeFail")
+				return ErrInjected
+			}
+		}
 		return nil
 	}
 	tot := 0
-	for len(p.Outcomes) < 8 {
+	for len(p.Outcomes) < 9 {
 		p.Outcomes = append(p.Outcomes, 0)
 	}
 	for _, w := range p.Outcomes {
@@ -856,6 +889,19 @@ func execC14(e *Env, pp any) {
 		case 7: // the request arrives with a timeout that has already run out: the RPC still exists on the server
 			c.ReqMD = map[string][]string{"grpc-timeout": {[]string{"0m", "0n", "0S", "1n"}[g.IntN(4)]}}
 			e.Note("outcome.expired-on-arrival")
+		case 8: // one message write fails in the transport while the handler is still waiting for the caller (the connection stays usable)
+			if c.Kind == KBidi || c.Kind == KCStream {
+				n := 1 + g.IntN(3)
+				c.CSendN, c.HSendN = n, 0
+				c.CProg = []Op{{K: 'f', A: []Op{{K: 's', N: n}, {K: 'c'}}, B: []Op{{K: 'R'}}}}
+				c.HProg = []Op{{K: 'R'}}
+				if c.Kind == KCStream {
+					c.HSendN = 1
+					c.HProg = append(c.HProg, Op{K: 's'})
+				}
+				failBody[id] = true
+				e.Note("outcome.failed-send")
+			}
 		default:
 			e.Note("outcome.ok")
 		}
@@ -1027,7 +1073,7 @@ func init() {
 		if p.Side.CliStats+p.Side.SrvStats == 0 {
 			p.Side.CliStats, p.Side.SrvStats = 1, 1
 		}
-		p.Outcomes = []int{2, 1 + g.IntN(2), 1 + g.IntN(3), 1 + g.IntN(2), g.IntN(2), 1 + g.IntN(3), g.IntN(2), 1 + g.IntN(2)}
+		p.Outcomes = []int{2, 1 + g.IntN(2), 1 + g.IntN(3), 1 + g.IntN(2), g.IntN(2), 1 + g.IntN(3), g.IntN(2), 1 + g.IntN(2), g.IntN(2)}
 		return p
 	}, Exec: execC14, Faulty: true, FaultKinds: []string{"ctx.cancel", "ctx.deadline", "open.writeFail", "handler.abandon"}})
 }
